@@ -15,6 +15,123 @@ class DeErr(Exception):
     pass
 
 
+# ---------------------------------------------------------------- semver::VersionReq (python twin of Model/VersionReq.v)
+U64 = 1 << 64
+_OPS = {"OpExact": "=", "OpGt": ">", "OpGe": ">=", "OpLt": "<", "OpLe": "<=", "OpTilde": "~", "OpCaret": "^", "OpWild": ""}
+
+
+def _trim(s):
+    return s.lstrip(" ")
+
+
+def _num_ident(s):
+    n = 0
+    while n < len(s) and s[n] in "0123456789":
+        n += 1
+    if n == 0 or (s[0] == "0" and n > 1) or int(s[:n]) >= U64:
+        return None
+    return int(s[:n]), s[n:]
+
+
+def _wildcard(s):
+    return s[1:] if s[:1] in ("*", "x", "X") and s else None
+
+
+def _parse_cmp(s):
+    dflt = False
+    if s[:1] == "=":
+        op, t = "OpExact", s[1:]
+    elif s[:2] == ">=":
+        op, t = "OpGe", s[2:]
+    elif s[:1] == ">":
+        op, t = "OpGt", s[1:]
+    elif s[:2] == "<=":
+        op, t = "OpLe", s[2:]
+    elif s[:1] == "<":
+        op, t = "OpLt", s[1:]
+    elif s[:1] == "~":
+        op, t = "OpTilde", s[1:]
+    elif s[:1] == "^":
+        op, t = "OpCaret", s[1:]
+    else:
+        op, t, dflt = "OpCaret", s, True
+    r = _num_ident(_trim(t))
+    if r is None:
+        return None
+    maj, t = r
+    mi = pa = None
+    hasw = False
+    if t[:1] == ".":
+        w = _wildcard(t[1:])
+        if w is not None:
+            hasw = True; t = w
+            if dflt:
+                op = "OpWild"
+        else:
+            r = _num_ident(t[1:])
+            if r is None:
+                return None
+            mi, t = r
+    if t[:1] == ".":
+        w = _wildcard(t[1:])
+        if w is not None:
+            t = w
+            if dflt:
+                op = "OpWild"
+        elif hasw:
+            return None
+        else:
+            r = _num_ident(t[1:])
+            if r is None:
+                return None
+            pa, t = r
+    if pa is not None and t[:1] in ("-", "+"):
+        return None          # pre-release / build metadata: not modelled
+    return (op, maj, mi, pa), _trim(t)
+
+
+def vreq_parse(text):
+    t = _trim(text)
+    w = _wildcard(t)
+    if w is not None:
+        return [] if _trim(w) == "" else None
+    out = []
+    while True:
+        if len(out) == 32:
+            return None
+        r = _parse_cmp(t)
+        if r is None:
+            return None
+        c, t = r
+        out.append(c)
+        if t == "":
+            return out
+        if t[0] != ",":
+            return None
+        t = _trim(t[1:])
+
+
+def vreq_print(cs):
+    if not cs:
+        return "*"
+    parts = []
+    for op, maj, mi, pa in cs:
+        s = _OPS[op] + str(maj)
+        wild = ".*" if op == "OpWild" else ""
+        if mi is not None:
+            s += "." + str(mi)
+            s += "." + str(pa) if pa is not None else wild
+        else:
+            s += wild
+        parts.append(s)
+    return ", ".join(parts)
+
+
+def vreq_normalise(text):
+    r = vreq_parse(text)
+    return None if r is None else vreq_print(r)
+
+
 def loads(text):
     return json.loads(text, object_pairs_hook=lambda ps: ("obj", ps), parse_constant=lambda c: ("const", c))
 
@@ -196,6 +313,8 @@ class Env:
             if df[0] == "DefNewtype":
                 return ("VStruct", [self.de_prim(df[1], j, d[1])])
             if df[0] == "DefStruct":
+                if isinstance(j, list):
+                    return ("VStruct", self.de_struct_seq(df[1], j, d[1]))
                 if not (isinstance(j, tuple) and j[0] == "obj"):
                     raise DeErr("expected object for %s" % d[1])
                 return ("VStruct", self.de_fields(df[1], j[1], d[1]))
@@ -226,7 +345,10 @@ class Env:
             if d[1] == "CVersionReq":
                 if not isinstance(j, str):
                     raise DeErr("version: expected string")
-                return ("VStr", j)
+                n = vreq_normalise(j)        # Model/Serde.v de_opaque CVersionReq: from_str, held as its Display form
+                if n is None:
+                    raise DeErr("version: not a semver requirement (or pre-release / build metadata: not modelled)")
+                return ("VStr", n)
         return self.de_prim(d, j, where)
 
     @staticmethod
@@ -281,9 +403,31 @@ class Env:
             if not isinstance(j, list) or len(j) != len(sh[1]):
                 raise DeErr("tuple variant arity at %s" % where)
             return [self.de(a, b, where) for a, b in zip(sh[1], j)]
+        if isinstance(j, list):
+            return self.de_struct_seq(sh[1], j, where)
         if not (isinstance(j, tuple) and j[0] == "obj"):
             raise DeErr("struct variant expects object at %s" % where)
         return self.de_fields(sh[1], j[1], where)
+
+    def de_struct_seq(self, fs, l, where):
+        """Model/Serde.v de_struct_seq: serde-derive's visit_seq (fields in order; exhausted array: `default` fields get their
+        default, any other field is invalid length; extra elements are an error; no visit_seq with a flatten field)"""
+        if any(f["flatten"] for f in fs):
+            raise DeErr("array for a struct with a flattened field at %s" % where)
+        if len(l) > len(fs):
+            raise DeErr("too many elements for struct at %s" % where)
+        out = []
+        for i, f in enumerate(fs):
+            if i < len(l):
+                out.append(self.de(f["desc"], l[i], where + "." + f["name"]))
+            elif f["default"]:
+                v = self.default_of(f["desc"])
+                if v is None:
+                    raise DeErr("default of an unmodelled type at %s.%s" % (where, f["name"]))
+                out.append(v)
+            else:
+                raise DeErr("invalid length %d for struct at %s" % (len(l), where))
+        return out
 
     @staticmethod
     def default_of(d):
